@@ -261,7 +261,7 @@ class AnEvaluate(TopLevel):
     """symbolic.An.evaluate (inherited by Infer)."""
     qual = 'symbolic:An.evaluate'
     cls = 'An'
-    props = ('C01', 'C04', 'C07', 'C08', 'C09', 'C19')
+    props = ('C01', 'C04', 'C07', 'C08', 'C09', 'C19', 'C14')   # C14: 'symbolic construction' is what the user's block says (mode confinement)
     inline = ('_process_result_', '_next_result_')
     trusted = ("_reset_cache_ re-establishes the quiescent state of the whole expression graph (contract ResetCache)",
                "_process_result_ of a SetOf descriptor (UnificationDict construction) is not interpreted")
@@ -451,7 +451,7 @@ class TheEvaluate(TopLevel):
     """symbolic.The.evaluate"""
     qual = 'symbolic:The.evaluate'
     cls = 'The'
-    props = ('C04', 'C06', 'C08', 'C09')
+    props = ('C04', 'C06', 'C08', 'C09', 'C14')
     inline = ('_process_result_',)
     var_optional = True
     trusted = ("The._evaluate_ satisfies its contract (TheEvaluateHelper): returns the unique row / raises",
